@@ -38,6 +38,9 @@ impl ECDSA {
     }
 
     pub fn verify_hashbuf(digest: &[u8], pub_key: &PublicKey, signature: &Signature) -> Result<bool, BSVErrors> {
+        if digest.len() != 32 {
+            return Err(BSVErrors::CustomECDSAError("Digest must be 32 bytes long".to_string()));
+        }
         ECDSA::verify_hashbuf_impl(*GenericArray::from_slice(digest), pub_key, signature)
     }
 }
